@@ -47,6 +47,10 @@ def stream(family, tier):
             if tier != "quick":
                 yield decs[1 + k % 3]
             k += 1
+    elif family == "F1.4s":  # four rules with single-literal bodies, queries only
+        for cl, heads in G.f1_programs(4, bodies="single"):
+            yield next(iter(G.decorate(cl, heads, k=k)))
+            k += 1
     elif family == "F1.3":
         for cl, heads in G.f1_programs(3):
             decs = list(G.decorate(cl, heads, k=k))
